@@ -121,6 +121,22 @@ mut("c22-partial-sift", "C22", SH, "    if (cmp(buf + swap, buf + child, context
 mut("c22-partial-guard", "C22", SH, "    if (k <= 0 || n < k) return;", "    if (k <= 0) return;", "rule=R-BOUNDS construct=ContactSelect:partial-guard")
 mut("c22-cmp-sensor", "C22", SE, "  if (a->id > b->id) return 1;\n", "", "rule=R-CMP construct=ContactInfoCompare:antisymmetry")
 mut("c22-cmp-render", "C22", RG, "  if (d1 < d2) {\n    return -1;\n  } else if (d1 == d2) {", "  if (d1 < d2) {\n    return 1;\n  } else if (d1 == d2) {", "rule=R-CMP construct=geomcmp:antisymmetry")
+MERGE_HEAD = "  int i = start, j = mid, k = start;                                                               \\\n  while (i < mid && j < end) {"
+mut("c22-sem-fastpath-tie", "C22", SH, MERGE_HEAD,
+    "  if (cmp(src + end - 1, src + start, context) <= 0) {                                             \\\n"
+    "    memcpy(dest + start, src + mid, (end - mid) * sizeof(type));                                   \\\n"
+    "    memcpy(dest + start + (end - mid), src + start, (mid - start) * sizeof(type));                 \\\n"
+    "    continue;                                                                                      \\\n"
+    "  }                                                                                                \\\n" + MERGE_HEAD,
+    "rule=R-SEMANTIC construct=contactSort:merge-region")
+mut("c22-ok-fastpath-strict", "C22", SH, MERGE_HEAD,
+    "  if (cmp(src + end - 1, src + start, context) < 0) {                                              \\\n"
+    "    memcpy(dest + start, src + mid, (end - mid) * sizeof(type));                                   \\\n"
+    "    memcpy(dest + start + (end - mid), src + start, (mid - start) * sizeof(type));                 \\\n"
+    "    continue;                                                                                      \\\n"
+    "  }                                                                                                \\\n" + MERGE_HEAD, None)
+mut("c22-sem-sift-right-child-only", "C22", SH, "  while (2 * root + 1 < end) {", "  while (2 * root + 2 < end) {", "rule=R-SEMANTIC construct=ContactSelect:small-arrays")
+mut("c22-sem-heapify-start", "C22", SH, "    for (int j = (k - 2) / 2; j >= 0; j--) _mjSIFT_DOWN", "    for (int j = (k - 2) / 2; j > 0; j--) _mjSIFT_DOWN", "rule=R-SEMANTIC construct=ContactSelect:small-arrays")
 # controls
 mut("c22-ok-not-gt", "C22", SH, "    if (cmp(src + i, src + j, context) <= 0) {", "    if (!(cmp(src + i, src + j, context) > 0)) {", None)
 mut("c22-ok-swapped-ge", "C22", SH, "    if (cmp(src + i, src + j, context) <= 0) {", "    if (cmp(src + j, src + i, context) >= 0) {", None)
